@@ -8,6 +8,11 @@ use vcore::num::EPS;
 
 pub type F<'a> = &'a dyn Fn(f64, &[f64]) -> Vec<f64>;
 
+/// Euclidean norm: the norm the solvers take of their error vectors (complex states arrive flattened to (re, im)
+/// pairs, for which this is the complex Euclidean norm)
+fn n2(a: &[f64]) -> f64 {
+    a.iter().map(|x| x * x).sum::<f64>().sqrt()
+}
 fn ninf(a: &[f64]) -> f64 {
     a.iter().fold(0.0, |m, x| m.max(x.abs()))
 }
@@ -159,9 +164,11 @@ fn judge_rk(tab: &Tableau, f: F, tol: f64, pts: &[(f64, Vec<f64>)], out: &mut Ju
             est = axpy(&est, *ej, &k[j]);
             floor += ej.abs() * ninf(&k[j]);
         }
-        let e = ninf(&est);
+        // the estimate is the Euclidean norm of the error vector (the floors below are per component: x sqrt(dim))
+        let e = n2(&est);
+        let floor = floor * (y.len() as f64).sqrt();
         out.worst_est = out.worst_est.max(e / tol);
-        let esum: f64 = tab.e.iter().map(|x| x.abs()).sum();
+        let esum: f64 = tab.e.iter().map(|x| x.abs()).sum::<f64>() * (y.len() as f64).sqrt();
         if std::env::var("VERIF_DEBUG").is_ok() && e > tol * (1.0 + 1e-9) + 8.0 * EPS * floor + 8.0 * EPS * lip * esum * (ninf(y) + h.abs() * fmax) + 8.0 * EPS * lip_t * esum * t1.abs() { eprintln!("DEBUG i {} e {:e} tol {:e} floor {:e} lip {:e} lip_t {:e} esum {} y {:e} h {:e} fmax {:e} t1 {}", i, e, tol, floor, lip, lip_t, esum, ninf(y), h, fmax, t1); }
         if !(e <= tol * (1.0 + 1e-9) + 8.0 * EPS * floor + 8.0 * EPS * lip * esum * (ninf(y) + h.abs() * fmax) + 8.0 * EPS * lip_t * esum * t1.abs()) {
             out.classes.push('!');
@@ -239,8 +246,8 @@ fn judge_adams(o: usize, f: F, tol: f64, pts: &[(f64, Vec<f64>)], log: &CallLog,
                 }
                 let ares = ninf(&sub(&cor, y)) / unit;
                 if ares <= 256.0 {
-                    let est = 19.0 / 270.0 * ninf(&sub(&cor, &pred)) / h.abs();
-                    if est <= tol * (1.0 + 1e-9) + 32.0 * EPS * ninf(y) / h.abs() {
+                    let est = 19.0 / 270.0 * n2(&sub(&cor, &pred)) / h.abs();
+                    if est <= tol * (1.0 + 1e-9) + 32.0 * EPS * n2(y) / h.abs() {
                         out.worst_est = out.worst_est.max(est / tol);
                         cands.push((ares, push(hy, &fi), true)); // PEC: history holds f at the predicted point
                         cands.push((ares, push(hy, &fy), true)); // PECE: history holds f at the yielded point
